@@ -8,16 +8,15 @@ import DEngine.Lemmas.BufLogStep
 slow path, `remove_range`, purge, reset, the IO task with every arm order) — the same function the `buflog` driver
 runs against the real code. `Plain.run` is a list of entries above an anchor with the textbook rules.
 
-* `buf_refines_plain` (full strength for well-formed streams): for **every** operation list whose append /
-  AppendEntries requests are gap-free, start where Raft starts them, carry terms ≥ 1 and (inside one request)
-  non-decreasing terms — `wfRun`, decidable, evaluated on the specification state — and with at most 1024 entries in
-  total (the `TermSegments` capacity), every observation of the buffered log equals that of the plain log:
-  last log id, first / last entry id, `entry_term` at every index, first / last index of every term, every range
-  read, `is_empty`, last entry, and the result of every conflict-aware append and range read along the way.
-* The statement for the weaker reading of "well-formed" (increasing indexes, gaps not excluded) is **false**:
-  `weak_statement_false` (the log accepts a gapped append and then answers `entry_term` for the missing index).
-* Without the 1024 bound it is false as well: `segment_cap_statement_false` (the cold path of `TermSegments::get`
-  indexes past the end of its arrays once more than 1024 segments were archived).
+* `buf_refines_plain` (full strength): for **every** operation list whose append / AppendEntries requests are what
+  Raft hands to the log — gap-free, starting where Raft starts them, terms ≥ 1, non-decreasing terms inside one
+  request (`wfRun`, decidable, evaluated on the specification state) — every observation of the buffered log equals
+  that of the plain log: last log id, first / last entry id, `entry_term` at every index, first / last index of
+  every term, every range read, `is_empty`, last entry, and the result of every conflict-aware append and range read
+  along the way. No bound on length, indexes, terms or the number of term changes (after fix f685456 the
+  `TermSegments` cold path falls back to the SkipMap once its 1024 slots are used up; the model does the same).
+* `gap_free_is_needed`: contiguity is a real precondition, not a convenience — for a request with an index gap (which
+  Raft never builds, cf. fix F6) the log answers `entry_term` for the missing index.
 -/
 namespace DEngine.C19
 open DEngine.BufLog
@@ -53,19 +52,16 @@ theorem obsDiff_none_of_obsEq {b : Buf} {p : Plain} (h : ObsEq b p) (st : Store)
 
 /-- induction over the operation list -/
 theorem run_refines : ∀ (ops : List Op) (s : Sys), Quiet s → s.buf.Inv → wfRun s.buf.abs ops = true →
-    s.buf.segs.arch.length + budget ops ≤ maxSegs →
     Quiet (Sys.run s ops).1 ∧ (Sys.run s ops).1.buf.Inv ∧ (Sys.run s ops).1.buf.abs = (Plain.run s.buf.abs ops).1 ∧
     resAgreeAll ops (Sys.run s ops).2 (Plain.run s.buf.abs ops).2 = true := by
   intro ops
   induction ops with
-  | nil => intro s hq hi _ _; exact ⟨hq, hi, rfl, rfl⟩
+  | nil => intro s hq hi _; exact ⟨hq, hi, rfl, rfl⟩
   | cons op ops ih =>
-    intro s hq hi hwf hb
+    intro s hq hi hwf
     simp only [wfRun, Bool.and_eq_true] at hwf
-    simp only [budget] at hb
-    have hstep := execOp_refines hq hi hwf.1 (by omega)
+    have hstep := execOp_refines hq hi hwf.1
     have hrest := ih (execOp s op).1 hstep.quiet hstep.inv (by rw [hstep.abs]; exact hwf.2)
-      (by have := hstep.segs; omega)
     simp only [Sys.run, Plain.run]
     refine ⟨hrest.1, hrest.2.1, ?_, ?_⟩
     · rw [hrest.2.2.1, hstep.abs]
@@ -75,40 +71,26 @@ theorem run_refines : ∀ (ops : List Op) (s : Sys), Quiet s → s.buf.Inv → w
       rw [hstep.abs] at this
       exact this
 
-/-- the archive of `TermSegments` stays within the budget -/
-theorem run_segs_le : ∀ (ops : List Op) (s : Sys), Quiet s → s.buf.Inv → wfRun s.buf.abs ops = true →
-    s.buf.segs.arch.length + budget ops ≤ maxSegs → (Sys.run s ops).1.buf.segs.arch.length ≤ maxSegs := by
-  intro ops
-  induction ops with
-  | nil => intro s _ _ _ hb; simpa [Sys.run, budget] using hb
-  | cons op ops ih =>
-    intro s hq hi hwf hb
-    simp only [wfRun, Bool.and_eq_true] at hwf
-    simp only [budget] at hb
-    have hstep := execOp_refines hq hi hwf.1 (by omega)
-    simp only [Sys.run]
-    exact ih (execOp s op).1 hstep.quiet hstep.inv (by rw [hstep.abs]; exact hwf.2) (by have := hstep.segs; omega)
-
 /-- **C19 (well-formed streams, full strength).** Whatever the store flavour and whatever the IO schedule chosen by
     the operations' annotations. -/
 theorem buf_refines_plain (ops : List Op) (keepBoundary : Bool) (file : Option FileImg)
-    (hwf : wfRun {} ops = true) (hbud : budget ops ≤ maxSegs) :
+    (hwf : wfRun {} ops = true) :
     ObsEq (Sys.run { keepBoundary := keepBoundary, file := file } ops).1.buf (Plain.run {} ops).1 ∧
     resAgreeAll ops (Sys.run { keepBoundary := keepBoundary, file := file } ops).2 (Plain.run {} ops).2 = true := by
   have h := run_refines ops { keepBoundary := keepBoundary, file := file } ⟨rfl, by simp⟩ Buf.Inv.init
-    (by simpa [Buf.abs] using hwf) (by simpa using hbud)
+    (by simpa [Buf.abs] using hwf)
   have hobs := obsEq_of_inv h.2.1
   rw [h.2.2.1] at hobs
   exact ⟨by simpa [Buf.abs] using hobs, by simpa [Buf.abs] using h.2.2.2⟩
 
 /-- the invariant that carries the induction holds after every well-formed run -/
 theorem inv_of_run (ops : List Op) (keepBoundary : Bool) (file : Option FileImg)
-    (hwf : wfRun {} ops = true) (hbud : budget ops ≤ maxSegs) :
+    (hwf : wfRun {} ops = true) :
     (Sys.run { keepBoundary := keepBoundary, file := file } ops).1.buf.Inv :=
   (run_refines ops { keepBoundary := keepBoundary, file := file } ⟨rfl, by simp⟩ Buf.Inv.init
-    (by simpa [Buf.abs] using hwf) (by simpa using hbud)).2.1
+    (by simpa [Buf.abs] using hwf)).2.1
 
-/-- well-formedness and the budget pass to prefixes, so the agreement holds after every operation of the run -/
+/-- well-formedness passes to prefixes, so the agreement holds after every operation of the run -/
 theorem wfRun_take : ∀ (ops : List Op) (p : Plain) (n : Nat), wfRun p ops = true → wfRun p (ops.take n) = true := by
   intro ops
   induction ops with
@@ -122,21 +104,10 @@ theorem wfRun_take : ∀ (ops : List Op) (p : Plain) (n : Nat), wfRun p ops = tr
       simp only [List.take_succ_cons, wfRun, Bool.and_eq_true]
       exact ⟨h.1, ih _ n h.2⟩
 
-theorem budget_take : ∀ (ops : List Op) (n : Nat), budget (ops.take n) ≤ budget ops := by
-  intro ops
-  induction ops with
-  | nil => intro n; simp [budget]
-  | cons op ops ih =>
-    intro n
-    cases n with
-    | zero => simp [budget]
-    | succ n => simp only [List.take_succ_cons, budget]; have := ih n; omega
-
 theorem buf_refines_plain_prefix (ops : List Op) (keepBoundary : Bool) (file : Option FileImg)
-    (hwf : wfRun {} ops = true) (hbud : budget ops ≤ maxSegs) (n : Nat) :
+    (hwf : wfRun {} ops = true) (n : Nat) :
     ObsEq (Sys.run { keepBoundary := keepBoundary, file := file } (ops.take n)).1.buf (Plain.run {} (ops.take n)).1 :=
-  (buf_refines_plain (ops.take n) keepBoundary file (wfRun_take ops {} n hwf)
-    (Nat.le_trans (budget_take ops n) hbud)).1
+  (buf_refines_plain (ops.take n) keepBoundary file (wfRun_take ops {} n hwf)).1
 
 /-! ### non-vacuity: a well-formed stream that goes through every path of the conflict-aware append -/
 
@@ -152,14 +123,19 @@ def demoOps : List Op :=
     .get 0 9, .flush {}, .io {},
     .fca 0 0 [e 3 4 1] {} ]                              -- start from scratch (above the purge boundary)
 
-example : wfRun {} demoOps = true ∧ budget demoOps ≤ maxSegs := by decide
+example : wfRun {} demoOps = true := by decide
 example : (Sys.run {} demoOps).1.buf.mem = [e 3 4 1] ∧ (Sys.run {} demoOps).1.buf.purgedI = 2 := by decide
-example : ObsEq (Sys.run {} demoOps).1.buf (Plain.run {} demoOps).1 := (buf_refines_plain demoOps true none (by decide) (by decide)).1
+example : ObsEq (Sys.run {} demoOps).1.buf (Plain.run {} demoOps).1 := (buf_refines_plain demoOps true none (by decide)).1
 
-/-! ### the weaker reading of "well-formed" (gaps allowed): the statement is false -/
+/-! ### contiguity is a real precondition
+
+The weaker reading of "what Raft hands to the log" (`wfRunWeak`: increasing indexes, gaps not excluded) does not
+suffice: the log never checks contiguity, and after a gapped append `TermSegments` answers for the missing index.
+Raft never builds such a request (the leader sends the contiguous run after `prev_log_index`, fix F6), so this is a
+precondition of the theorem above, not a defect of the log. -/
 
 def WeakStatement : Prop :=
-  ∀ ops : List Op, wfRunWeak {} ops = true → budget ops ≤ maxSegs → ObsEq (Sys.run {} ops).1.buf (Plain.run {} ops).1
+  ∀ ops : List Op, wfRunWeak {} ops = true → ObsEq (Sys.run {} ops).1.buf (Plain.run {} ops).1
 
 /-- an append that skips index 2 is accepted; `entry_term(2)` then answers term 1 although no entry 2 exists -/
 def gapWitness : List Op := [ .append [e 1 1 0], .append [e 3 1 0] ]
@@ -169,45 +145,26 @@ theorem gapWitness_weak_wf : wfRunWeak {} gapWitness = true ∧ wfRun {} gapWitn
 theorem gapWitness_entryTerm :
     (Sys.run {} gapWitness).1.buf.entryTerm 2 = some 1 ∧ (Plain.run {} gapWitness).1.termAt 2 = none := by decide
 
-theorem weak_statement_false : ¬ WeakStatement := by
+theorem gap_free_is_needed : ¬ WeakStatement := by
   intro h
-  have := (h gapWitness (by decide) (by decide)).entryTerm 2
+  have := (h gapWitness (by decide)).entryTerm 2
   rw [gapWitness_entryTerm.1, gapWitness_entryTerm.2] at this
   cases this
 
-/-! ### without the 1024-entry bound: the statement is false (the log panics) -/
+/-! ### beyond the capacity of `TermSegments` (regression of F71)
 
-/-- the statement without the capacity bound: on a well-formed stream no query of the log ever panics -/
-def UnboundedStatement : Prop :=
-  ∀ ops : List Op, wfRun {} ops = true → snapPanics (Sys.run {} ops).1.buf = false
+1026 entries with 1026 different terms archive 1025 segments; before fix f685456 the cold path of
+`TermSegments::get` indexed `seg_starts[1024]` and `entry_term(1)` panicked. Now it answers through the SkipMap
+fallback, and the main theorem covers the run like any other. -/
 
-/-- 1026 entries with 1026 different terms: 1025 segments get archived, `seg_count` = 1025 > 1024 -/
 def capWitness : List Op :=
   [ .append ((List.range 1026).map fun i => { index := i + 1, term := i + 1, payload := 0 }) ]
 
 theorem capWitness_wf : wfRun {} capWitness = true := by decide +kernel
 
-/-- `entry_term(1)` takes the cold path of `TermSegments::get`, which indexes `seg_starts[1024]` -/
-theorem capWitness_panics : snapPanics (Sys.run {} capWitness).1.buf = true := by decide +kernel
+theorem capWitness_overflowed : maxSegs < (Sys.run {} capWitness).1.buf.segs.count := by decide +kernel
 
-theorem segment_cap_statement_false : ¬ UnboundedStatement := by
-  intro h
-  have := h capWitness capWitness_wf
-  rw [capWitness_panics] at this
-  cases this
-
-/-- under the bound of the main theorem nothing panics: the archive never outgrows its arrays -/
-theorem no_panic_of_budget (ops : List Op) (hwf : wfRun {} ops = true) (hbud : budget ops ≤ maxSegs) :
-    snapPanics (Sys.run {} ops).1.buf = false := by
-  have h := run_refines ops {} ⟨rfl, by simp⟩ Buf.Inv.init (by simpa [Buf.abs] using hwf) (by simpa using hbud)
-  -- the invariant says seg_count = number of archived slots; the budget keeps that ≤ 1024 (see `run_segs_le`)
-  have hcnt := h.2.1.seg.cnt
-  have hlen : (Sys.run {} ops).1.buf.segs.arch.length ≤ maxSegs := run_segs_le ops {} ⟨rfl, by simp⟩ Buf.Inv.init
-    (by simpa [Buf.abs] using hwf) (by simpa using hbud)
-  simp only [snapPanics, List.any_eq_false, Buf.entryTermPanics, Segs.getPanics, Bool.and_eq_true, not_and, Bool.not_eq_true]
-  intros
-  rw [hcnt]
-  simp only [decide_eq_false_iff_not]
-  omega
+theorem capWitness_entryTerm : (Sys.run {} capWitness).1.buf.entryTerm 1 = some 1 :=
+  ((buf_refines_plain capWitness true none capWitness_wf).1.entryTerm 1).trans (by decide +kernel)
 
 end DEngine.C19
